@@ -3,13 +3,15 @@ ID = 'C16'
 LEVEL = 'proof'
 CONTRACT_MODULES = ['contracts.evals', 'contracts.binary']
 CONE = ['csep.core.binomial_evaluations.binary_joint_log_likelihood_ndarray', 'csep.core.brier_evaluations._brier_score_ndarray',
-        'csep.core.binomial_evaluations._binary_likelihood_test', 'csep.core.brier_evaluations._brier_score_test']
+        'csep.core.binomial_evaluations._binary_likelihood_test', 'csep.core.brier_evaluations._brier_score_test',
+        'csep.core.binomial_evaluations.binary_spatial_test', 'csep.core.binomial_evaluations.binary_conditional_likelihood_test',
+        'csep.core.brier_evaluations.brier_score_test']
 ORACLE_MODULES = ['rt.oracles_eval', 'rt.oracles_contracts']
 BOUNDED = os.path.exists(os.path.join(os.path.dirname(__file__), '..', 'rt', 'bounded_C16.py'))
 FLOAT_MODEL = 'R; log/exp uninterpreted; 1 - poisson.cdf(0, lam) = 1 - exp(-lam) (assumed cdf fact)'
 TRUSTED = ['numpy.ma.masked_where / masked arithmetic: data under the mask is unspecified (havoc) - the proof does not depend on it', 'numpy.nonzero + fancy assignment y[idx] = 1; builtins.sum / ndarray.sum as SUM over the C-order flattening; lemma L4 (sum congruence)', 'pyvc engine, z3 5.1']
-ASSUMPTIONS = ['binary log-likelihood: every rate > 0 (an event in a bin with rate <= 0 is the open known finding D14: masked by design); the binary kernel contract therefore requires positive rates, the Brier kernel contract allows zero rates', 'kernels proved for 2-d (space x magnitude) inputs with injected random numbers (closed form of every simulated score) and for seeded runs (one simulated catalog of the observed number of active cells per iteration); the public binary_spatial_test / binary_conditional_likelihood_test / brier_score_test wrappers are bounded only', 'floats as reals']
+ASSUMPTIONS = ['binary log-likelihood: every rate > 0 (an event in a bin with rate <= 0 is the open known finding D14: masked by design); the binary kernel contract therefore requires positive rates, the Brier kernel contract allows zero rates', 'kernels proved for 2-d (space x magnitude) inputs with injected random numbers (closed form of every simulated score) and for seeded runs (one simulated catalog of the observed number of active cells per iteration); the public binary_spatial_test / binary_conditional_likelihood_test / brier_score_test are proved over abstract forecast / catalog records (which arrays reach the kernel, result fields); that the records behave like real forecasts and catalogs is covered by C03 / C11 and the bounded layer', 'floats as reals']
 EXPLANATION = 'binary joint log-likelihood == sum over bins of [active ? ln(1-exp(-rate)) : -rate] and Brier == -2/N sum (1-exp(-rate)-[active])^2, 1-D, 2-D and mixed-rank arrays of arbitrary shape; dependence on the observation only through the support is visible in the postcondition (the counts occur only as count != 0 / count > 0); _binary_likelihood_test and _brier_score_test: observed score == that definition on the observed counts, every simulated score == that definition on the inverse-CDF catalog of its row of random numbers (loop invariant), quantile == fraction of simulated scores <= observed'
 TECHNIQUE = 'contracts on the real functions over lambda-lifted (masked) arrays; loop invariants over the simulation loops with modular use of the simulator and score contracts; pointwise summand equality + sum congruence lemma; z3 (5.1 and 4.8.12)'
-LEVEL_TEXT = 'proof (model R) of both score formulas and of the two test kernels for arrays of arbitrary shape; public wrappers bounded only'
+LEVEL_TEXT = 'proof (model R) of both score formulas and of the two test kernels for arrays of arbitrary shape; public tests proved as plumbing over the kernel contracts'
 LEVEL_NOTE = 'positive rates; masked data havoc; exp/log uninterpreted; D14 open finding'
